@@ -24,7 +24,9 @@ from codec_terms import q
 THEOREMS = ["C05_write_json_generic", "C05_json_conforms", "C05_json_no_nonconforming_row", "C05_json_env_ok",
             "C05_write_json_object", "C05_write_json_store_partial", "C05_leaf_hypotheses",
             "C05_conforms_rejects_swapped_members", "C05_conforms_rejects_null_member", "C05_example"]
-VO = ["theories/props/C05.vo", "theories/model/SchemaObs.vo", "theories/model/SchemaXmlObs.vo"]
+THEOREMS_X = ["C05_write_xml_generic", "C05_xml_conforms", "C05_xml_env_ok", "C05_write_xml_store_shape",
+              "C05_xconforms_rejects_swapped_order", "C05_xml_example"]
+VO = ["theories/props/C05.vo", "theories/props/C05x.vo", "theories/model/SchemaObs.vo", "theories/model/SchemaXmlObs.vo"]
 PRELUDE_J = ("From Coq Require Import List ZArith String NArith.\n"
              "From Basyx Require Import model.Codec model.CodecObs model.SchemaBase model.Schema model.SchemaObs "
              "gen.Gen_JsonRules gen.Gen_Schema.\nOpen Scope string_scope.")
@@ -373,7 +375,7 @@ def read_oracle(chk, judges, twin, t, rng, store, i):
 # ------------------------------------------------------------------------------------------------- run
 def regenerate(chk):
     ok = True
-    for name in ("jsonrules", "schemas"):
+    for name in ("jsonrules", "xmlrules", "schemas"):
         try:
             mod = __import__(f"py2coq.{name}", fromlist=["regenerate"])
             chk.notes.append(mod.regenerate())
@@ -433,12 +435,23 @@ def run(chk):
     gen_ok = regenerate(chk)
     if gen_ok:
         ok = chk.theorems("props.C05", THEOREMS, VO)
+        okx = chk.theorems("props.C05x", THEOREMS_X, VO)
+        if not okx:
+            rows = common.coq_eval(
+                "C05xrows", "From Coq Require Import List String.\nFrom Basyx Require Import model.XmlCodec model.XmlMeta "
+                "model.XmlEntry model.SchemaXml model.SchemaXmlConf gen.Gen_XmlWriter gen.Gen_SchemaXml.\n"
+                "Open Scope string_scope.",
+                "let M := restrict [\"NormalizedString\"] xml_meta in let xt := xgfp M gen_xml_w xml_schema 20 "
+                "(xcandidates gen_xml_w xml_schema) in (xenv_ok xml_schema xt (snd xml_root) xml_tops, "
+                "map (fun t => match t with (f, c, _) => (f, c) end) xt)")
+            chk.tie_broken("xml-conforming-triples (a writer function missing here no longer conforms)",
+                           re.sub(r"\s+", " ", rows)[:2500])
         if not ok:
             common.coq_make(["theories/gen/Gen_Schema.vo", "theories/gen/Gen_JsonRules.vo"])
             rows = common.coq_eval("C05rows", PRELUDE_J, "nonconforming json_tables json_schema json_smeta json_triples")
             chk.tie_broken("nonconforming-rows", re.sub(r"\s+", " ", rows)[:2000])
     else:
-        for t in THEOREMS:
+        for t in THEOREMS + THEOREMS_X:
             chk.obligations.append((t, "not-checked", []))
     probs = aasgen.meta_crosscheck()
     if probs:
@@ -520,6 +533,20 @@ def run(chk):
         jmeta.append((desc, real, doc, definition, errs[:3]))
         chk.count("tieC:json:" + ("valid" if real else "invalid"))
         chk.count("tieC:json:mut:" + desc.split("@")[0])
+    eterms = []
+    for i in range(24 if quick else 200):
+        g = c05_spec.SpecGen(rng, strings="plain", depth=2)
+        try:
+            store = g.store(rng.randint(0, 3))
+            from basyx.aas.adapter.json import object_store_to_json
+            real = json.loads(object_store_to_json(store))
+            falsy = set()
+            vals = [codec_terms.to_value(o, falsy).term() for o in store]
+            eterms.append("([" + "; ".join(vals) + "], ([" + "; ".join(q(x) for x in sorted(falsy)) +
+                          "] : list string), " + common.coq_z(codec_terms.hdoc(0, real)) + ")")
+            chk.count("tieC:env:%d" % len(vals))
+        except ValueError:
+            continue
     xterms, xmeta = [], []
     k = 0
     while len(xterms) < n_xcases and xdocs:
@@ -544,8 +571,12 @@ def run(chk):
         bad, errs = common.run_mismatch_shards("C05j", PRELUDE_J, jterms, "check_j", shard=10, jobs=16)
         n1 = common.run_mismatch_shards.evaluated
         bad2, errs2 = common.run_mismatch_shards("C05x", PRELUDE_X, xterms, "check_x", shard=6, jobs=16)
-        chk.traces = n1 + common.run_mismatch_shards.evaluated - len(bad) - len(bad2)
-        for e in (errs + errs2)[:3]:
+        n2 = common.run_mismatch_shards.evaluated
+        bad3, errs3 = common.run_mismatch_shards("C05e", PRELUDE_J, eterms, "check_env", shard=6, jobs=16)
+        chk.traces = n1 + n2 + common.run_mismatch_shards.evaluated - len(bad) - len(bad2) - len(bad3)
+        if bad3:
+            chk.tie_broken("correspondence-env-doc", {"n": len(bad3), "case_prefix": eterms[bad3[0]][:600]})
+        for e in (errs + errs2 + errs3)[:3]:
             chk.tie_broken("correspondence-run", e)
         if bad:
             desc, real, doc, definition, terrs = jmeta[bad[0]]
